@@ -428,7 +428,7 @@ func (c04) Assumptions() []string {
 func (c04) Gen(rng *rand.Rand, tier string, i int) *sim.Scenario {
 	if i%6 == 5 {
 		// whole requests: the end-to-end RTT must come from a destination-marked hop
-		return genRequestScenario("C04", rng, requestOpts{queriesMin: 1, queriesMax: 2, e2eMax: 3, silentProb: 0.3})
+		return genRequestScenario("C04", rng, requestOpts{queriesMin: 1, queriesMax: 2, e2eMax: 3, silentProb: 0.3, targetTE: true})
 	}
 	o := &wireOpts{variants: AllVariants, bigTTL: 0.03, catalogue: true, silentProb: 0.3, dupProb: 0.1, adversarial: 1, destForms: true, noDest: 0.2, wrapBases: true}
 	wr := genWireRun(rng, o, 0, "c0")
@@ -545,7 +545,7 @@ func (c05) Assumptions() []string {
 
 func (c05) Gen(rng *rand.Rand, tier string, i int) *sim.Scenario {
 	if i%5 == 4 {
-		return genRequestScenario("C05", rng, requestOpts{e2eMax: 4, queriesMax: 2, delays: true})
+		return genRequestScenario("C05", rng, requestOpts{e2eMax: 4, queriesMax: 2, delays: true, targetTE: true})
 	}
 	o := &wireOpts{variants: AllVariants, bigTTL: 0.02, silentProb: 0.15, dupProb: 0.5, lateProb: 0.05, overtake: true, prodTimeouts: true, noDest: 0.2, senderStall: 0.3}
 	wr := genWireRun(rng, o, 0, "c0")
